@@ -142,7 +142,7 @@ def check_unit(case, rec):
 
 @st.composite
 def payload_case(draw):
-    case = draw(G.unit_case(CMDS, max_rank=3, max_cells=30, two_distinct=True, dtypes=("float64", "int64", "float64", "int64", "float32", "int32")))
+    case = draw(G.unit_case(CMDS, max_rank=3, max_cells=30, two_distinct=True, tiny=True, dtypes=("float64", "int64", "float64", "int64", "float32", "int32")))
     p2 = []
     for spec in case["arrays"]:
         k = sum(spec["mask"]) if spec["mask"] is not None else 0
